@@ -240,8 +240,8 @@ def run(ctx):
     if ok:
         sv = sign_vars[0]
         sel = [x for x in walk(sb['body']) if x.get('k') == 'cond' and rsb.r(x['c']) in ('(== l:%s 1)' % sv, 'l:%s' % sv, '(!= l:%s 0)' % sv, '(== 1 l:%s)' % sv)]
-        ok = len(sel) == 1 and sorted([const_value(sel[0]['a']), const_value(sel[0]['b'])]) == [0x7FFFFFFF, 0xFFFFFFFF80000000] \
-            and const_value(sel[0]['a']) == 0xFFFFFFFF80000000
+        sat = [x for x in sel if sorted([const_value(x['a']) or 0, const_value(x['b']) or 0]) == [0x7FFFFFFF, 0xFFFFFFFF80000000]]
+        ok = len(sat) == 1 and const_value(sat[0]['a']) == 0xFFFFFFFF80000000
     if not ok:
         ctx.report(M4, sb, sb['body'], 'ShiftBus40 saturation sign', 'the saturation bound is not chosen by the sign the value had before the shift')
     ctx.sample({'ps': 2, 'shift': '<< 1', 'sign-extension': 34})
